@@ -26,6 +26,7 @@ func checkC11(p *core.Prog, r *core.Report) {
 	c11R8(p, r)
 	c11R9(p, r)
 	c11R10(p, r)
+	c11R11(p, r)
 }
 
 func c11R1(p *core.Prog, r *core.Report) {
@@ -837,4 +838,104 @@ func c11R10(p *core.Prog, r *core.Report) {
 	if n == 0 {
 		r.Fail("C11/R10: ProcessRecoverLockData restores no existing value object")
 	}
+}
+
+// c11R11: the follower keeps one ReplicationAckLock per pending ack record and
+// recycles them. Its two flags record which half of the handshake has happened
+// (applied / written to the follower's own log); the acknowledgement goes to
+// the leader when both are set. A recycled record that still carries a flag
+// from its previous use acknowledges the next record after only one half.
+func c11R11(p *core.Prog, r *core.Report) {
+	const rule = "C11/R11"
+	r.Rule(rule, "a recycled ReplicationAckLock has every handshake flag (bool field set true somewhere in the module) cleared before it is handed out, or when it is put into the pool", 1)
+	get := mustFunc(p, r, "server.(*ReplicationAckDB).getAckLock")
+	if get == nil {
+		return
+	}
+	flags := map[string]bool{}
+	for _, fn := range p.FuncsIn("server") {
+		for _, b := range fn.Blocks {
+			for _, ins := range b.Instrs {
+				st, ok := ins.(*ssa.Store)
+				if !ok {
+					continue
+				}
+				fa, ok := st.Addr.(*ssa.FieldAddr)
+				if !ok {
+					continue
+				}
+				k := core.FieldKeyOf(fa.X.Type(), fa.Field)
+				if k.Type != "server.ReplicationAckLock" {
+					continue
+				}
+				if c, ok := st.Val.(*ssa.Const); ok && c.Value != nil && c.Value.String() == "true" {
+					flags[k.Field] = true
+				}
+			}
+		}
+	}
+	if len(flags) == 0 {
+		r.Fail("C11/R11: no handshake flag of ReplicationAckLock is ever set")
+		return
+	}
+	clearedIn := func(fn *ssa.Function) (int, map[string][]string) {
+		n := 0
+		missing := map[string][]string{}
+		ex := core.NewExplorer(p, core.Hooks{
+			Instr: func(x *core.X) {
+				st, ok := x.Ins.(*ssa.Store)
+				if !ok {
+					return
+				}
+				fa, ok := st.Addr.(*ssa.FieldAddr)
+				if !ok {
+					return
+				}
+				k := core.FieldKeyOf(fa.X.Type(), fa.Field)
+				if k.Type == "server.ReplicationAckLock" && x.Canon(st.Val).S == "false" {
+					x.Set("clr:"+k.Field, "1")
+				}
+			},
+			Exit: func(x *core.X, rets []core.Expr) {
+				if len(rets) == 1 && (rets[0].S == "nil" || strings.HasPrefix(rets[0].S, "NewReplicationAckLock(")) {
+					return
+				}
+				n++
+				for f := range flags {
+					if x.Get("clr:"+f) != "1" {
+						missing[f] = x.St.Trace
+					}
+				}
+			},
+		})
+		ex.NoHist = true
+		ex.Run(fn, nil)
+		return n, missing
+	}
+	n, missing := clearedIn(get)
+	if n == 0 {
+		r.Fail("C11/R11: getAckLock has no reuse path")
+		return
+	}
+	key := "server.(*ReplicationAckDB).getAckLock: recycled record starts with its handshake flags clear"
+	if len(missing) > 0 {
+		// cleared when it is put into the pool instead?
+		if free := p.Func("server.(*ReplicationAckDB).freeAckLock"); free != nil {
+			if fnN, fmiss := clearedIn(free); fnN > 0 && len(fmiss) == 0 {
+				missing = nil
+			}
+		}
+	}
+	if len(missing) == 0 {
+		r.Hold(rule, key, p.Pos(get.Pos()), "all handshake flags cleared on reuse")
+		return
+	}
+	var fs []string
+	var tr []string
+	for f, t := range missing {
+		fs = append(fs, f)
+		tr = t
+	}
+	sort.Strings(fs)
+	r.Violate(rule, key, p.Pos(get.Pos()), "a recycled ack record is handed out with "+strings.Join(fs, ", ")+" still set from its previous use: the follower acknowledges the next ack-required record to the leader after only one half of the handshake (e.g. applied but not yet in the follower's own log), so the leader counts an acknowledgement for a record a follower crash would lose", tr)
 }
